@@ -823,9 +823,9 @@ def run_user_functions(res):
                     elif n != required:
                         if obs['status'] == 'ret':
                             what = ('%d arguments passed to a function with %d required parameter(s): returned %r instead of the '
-                                    'argument-count error' % (n, required, obs['value']))
-                        elif obs['exc'] != 'ArgumentError':
-                            what = 'wrong number of arguments reported as %s' % obs['exc']
+                                    'student-facing error' % (n, required, obs['value']))
+                        elif not obs['student_facing']:
+                            what = 'wrong number of arguments raised the non-student-facing %s' % obs['exc']
                     else:
                         st, want = core.guarded(f, *[O.to_python(a) for a in args])
                         O.fp_check('direct call of user function %s' % name)
